@@ -548,7 +548,8 @@ impl CpcSketch {
 
         let mut compressed = CompressedState::default();
         let mut num_coupons = 0;
-        let mut kxp = 0.0;
+        // Without a stored HIP section (empty or merged sketch) KXP has its initial value K.
+        let mut kxp = None;
         let mut hip_est_accum = 0.0;
 
         if has_table || has_window {
@@ -560,7 +561,7 @@ impl CpcSketch {
                     .read_u32_le()
                     .map_err(insufficient_data("table_num_entries"))?;
                 if has_hip {
-                    kxp = cursor.read_f64_le().map_err(insufficient_data("kxp"))?;
+                    kxp = Some(cursor.read_f64_le().map_err(insufficient_data("kxp"))?);
                     hip_est_accum = cursor
                         .read_f64_le()
                         .map_err(insufficient_data("hip_est_accum"))?;
@@ -579,7 +580,7 @@ impl CpcSketch {
                     as usize;
             }
             if has_hip && !(has_table && has_window) {
-                kxp = cursor.read_f64_le().map_err(insufficient_data("kxp"))?;
+                kxp = Some(cursor.read_f64_le().map_err(insufficient_data("kxp"))?);
                 hip_est_accum = cursor
                     .read_f64_le()
                     .map_err(insufficient_data("hip_est_accum"))?;
@@ -642,7 +643,7 @@ impl CpcSketch {
             window_offset: determine_correct_offset(lg_k, num_coupons),
             sliding_window: uncompressed.window,
             merge_flag: !has_hip,
-            kxp,
+            kxp: kxp.unwrap_or((1u64 << lg_k) as f64),
             hip_est_accum,
         })
     }
